@@ -728,16 +728,21 @@ def scenario_from_json(d):
 
 
 def _run_chunk(args):
-    """Worker process: runs a chunk of seeded scenarios on the real code."""
+    """Worker process: runs a chunk of seeded scenarios on the real code and
+    replays all of them on the Lean model with ONE driver process."""
     base_seed, idxs, with_model = args
+    import gc
     import warnings
     warnings.simplefilter('ignore')
+    gc.disable()          # forked worker: avoid copy-on-write storms
     out = []
+    recs = []
     for i in idxs:
+        if len(out) % 16 == 15:
+            gc.collect()
         rs = base_seed * 1000003 + i
         rng = random.Random(rs)
-        flav = None
-        sc = gen_scenario(rng, flav)
+        sc = gen_scenario(rng, None)
         sim, V, stats, st = run_one(sc, rs, with_model=with_model)
         key = hashlib.sha1(repr((sc, sim.schedule())).encode()).hexdigest()[:16]
         verd = []
@@ -749,17 +754,11 @@ def _run_chunk(args):
             verd.append((prop, sig, what))
         res = {'i': i, 'key': key, 'stats': stats, 'verdicts': verd,
                'counts': _sig_counts(V), 'topo': sc['topo'],
-               'had_cancel': stats['cancels'] > 0}
-        if verd:
-            res['replay'] = {'scenario': sc, 'run_seed': rs,
-                             'schedule': sim.schedule()}
+               'had_cancel': stats['cancels'] > 0,
+               'replay': {'scenario': sc, 'run_seed': rs,
+                          'schedule': sim.schedule()}}
         if with_model:
-            from harness import runtime_model as rm
-            res['model'] = rm.diff(sim.recorder)
-            if res['model']['mismatch']:
-                res['model']['mismatch']['replay'] = {
-                    'scenario': sc, 'run_seed': rs,
-                    'schedule': sim.schedule()}
+            recs.append((len(out), sim.recorder))
         sim.dispose()
         if i % 97 == 0:
             res['sample'] = {'topo': sc['topo'],
@@ -768,6 +767,22 @@ def _run_chunk(args):
                              'clients': sc['clients'],
                              'transitions': sim.t, 'style': stats['style']}
         out.append(res)
+    if with_model and recs:
+        from harness import runtime_model as rm
+        lines = []
+        for _, rec in recs:
+            lines += rec.lines
+        got = rm.run_driver(lines)
+        pos = 0
+        for k, rec in recs:
+            n = len(rec.lines)
+            out[k]['model'] = rm.compare(rec, got[pos:pos + n])
+            pos += n
+            if out[k]['model']['mismatch']:
+                out[k]['model']['mismatch']['replay'] = out[k]['replay']
+    for r in out:
+        if not r['verdicts']:
+            r.pop('replay', None)
     return out
 
 
@@ -793,7 +808,18 @@ def code_key(seed, tier):
 
 
 def n_runs(tier):
-    return 12000 if tier == 'thorough' else 1600
+    return 8000 if tier == 'thorough' else 800
+
+
+def pool_size():
+    """16 workers on an idle machine, fewer when it is already oversubscribed."""
+    n = min(16, os.cpu_count() or 1)
+    try:
+        if os.getloadavg()[0] > n:
+            n = max(4, n // 2)
+    except OSError:
+        pass
+    return n
 
 
 def run_batch(seed: int, tier: str, with_model: bool) -> dict:
@@ -808,12 +834,16 @@ def run_batch(seed: int, tier: str, with_model: bool) -> dict:
         except Exception:
             pass
     import multiprocessing as mp
+    from harness import runtime_sim  # noqa: F401  import bqskit once, before forking
+    from harness import runtime_model  # noqa: F401
     N = n_runs(tier)
-    nproc = min(16, os.cpu_count() or 1)
+    nproc = pool_size()
     chunks = [(seed, list(range(k, N, nproc * 4)), with_model)
               for k in range(nproc * 4)]
     t0 = time.time()
     ctx = mp.get_context('fork')
+    import gc
+    gc.freeze()
     with ctx.Pool(nproc) as pool:
         parts = pool.map(_run_chunk, chunks)
     runs = sorted((r for p in parts for r in p), key=lambda r: r['i'])
@@ -1129,13 +1159,17 @@ def run_exhaustive(seed: int, tier: str) -> dict:
         except Exception:
             pass
     import multiprocessing as mp
+    from harness import runtime_sim  # noqa: F401  import bqskit once, before forking
+    from harness import runtime_model  # noqa: F401
     scs = small_scenarios('all' if tier == 'thorough' else 'quick')
     limit = 6000 if tier == 'thorough' else 1500
     jobs = [(name, sc, 11 + seed, limit) for name, sc in scs]
     if tier == 'thorough':
         jobs += [(name + '#seed2', sc, 12 + seed, limit) for name, sc in scs
                  if sc['topo']['workers'] == 2]
-    with mp.get_context('fork').Pool(min(16, os.cpu_count() or 1)) as pool:
+    import gc
+    gc.freeze()
+    with mp.get_context('fork').Pool(pool_size()) as pool:
         res = pool.map(_exh_job, jobs, chunksize=1)
     out = {'scenarios': {}, 'verdicts': {}}
     for name, sc, sd, stats, verd in res:
